@@ -8,20 +8,31 @@ mode the simulator supports:
                                tensors) | jax (eager) | jax-jit (whole run inside jax.jit,
                                parameters as tracers)
   GaussianSimulator            numpy | jax | jax-jit
-  PassiveSimulator             numpy | jax            (jit is not exercised by the test-suite)
+  PassiveSimulator             numpy | jax | jax-jit (what is traceable; the rest is recorded)
   fermionic PureFock/Gaussian  numpy | jax | jax-jit
 
+Shards: three TensorFlow-importing shards (weight 3; they import JAX only when a TensorFlow
+deviation has to be described), seven JAX shards. Every shard works on one (quick) or three
+(thorough) (d, cutoff) shapes because each new shape costs JAX 5-30 s of kernel compilation.
+
 Oracle: every observable of every mode equals the NumPy value within c*eps*size (all connectors
-are run in float64/complex128).  Two refinements keep the oracle sound:
+run in float64/complex128).  Refinements that keep the oracle sound and the findings narrow:
 
   * PureFock programs that contain an Euler-decomposed gate with *repeated non-zero* squeezing
     parameters (every Squeezing2, degenerate GaussianTransform) have no unique decomposition:
     rounding noise selects the basis inside the degenerate subspace and the *truncated* evolution
-    P U2 (P S1 P S2 P) U1 depends on it at the level of the truncation error.  Such programs are
+    U2 (P S1 P S2 P) U1 depends on it at the level of the truncation error.  Such programs are
     compared within the amplitude leaked at those gates (norms measured by the step hook in both
     runs, see Ledger); in compiled modes (no step boundaries observable) they are skipped and counted.
-  * get_phaseshifter_expectation_value is additionally compared with the value computed from
-    the photon statistics of the same state at a large cutoff (tail mass added to the tolerance).
+    A deviation beyond that bound is probed by calling euler() directly per connector.
+  * TensorFlow deviations in programs with complex Euler gates: connector.polar is probed directly
+    on the gate's symplectic matrix and the run is repeated with a textbook polar installed on the
+    connector instance; only a deviation that disappears then gets the key
+    `tensorflow-polar-not-unitary`.
+  * get_phaseshifter_expectation_value: when its concrete (NumPy / eager) and abstract (jit) code paths
+    disagree, both are compared with the value computed from the photon statistics of the same state
+    at a large cutoff (tail mass added to the tolerance) and with the documented closed form
+    re-evaluated by the harness (repeat vs tile ordering) to name the defect.
 """
 
 import time
@@ -44,9 +55,11 @@ LEVEL_TEXT = (
     "shifter expectation values and fermionic covariance matrices must equal the NumPy values within rounding."
 )
 LEVEL_NOTE = (
-    "Compiled modes run on fewer programs (every new program retraces). PureFock programs with a non-unique Euler "
-    "decomposition are compared within the truncation bound of the norm ledger only (eager) or skipped (compiled). "
-    "float32 configurations, gradients, batch instructions and measurements are not exercised here."
+    "Compiled modes run on fewer programs (every new program retraces) and only on what can be traced (no Euler-decomposed "
+    "gate under jax.jit / an outer tf.function: takagi inspects values). PureFock programs with a non-unique Euler "
+    "decomposition are compared within the amplitude leaked at the degenerate gates only (eager) or skipped (compiled). "
+    "float32 configurations, gradients, batch instructions, measurements, tiny non-zero phase-shifter angles and the "
+    "TensorFlow connector on simulators other than PureFock are not exercised here."
 )
 RULE = (
     "cases = program documents executed on NumPy and at least one other connector/mode; non-trivial = at least one "
@@ -731,6 +744,14 @@ def _classify(ctx, pq, case, results, deviating, ambiguous, complex_gates, size,
                 if np_wrong and m in ("jax",) and abs(v - v_np) <= tol_ref:
                     continue  # same concrete code path, already reported
                 ctx.viol("phaseshifter-expectation-differs:%s" % m, head + "%s gives %s; program %s" % (m, v, prog), dict(case, failing_mode=m))
+            elif not np_wrong and v_tile is not None and abs(v_rep - v_np) <= tolerance(size, n_ins) and \
+                    abs(v_tile - v) <= tolerance(size, n_ins) and abs(v_tile - v_rep) > tolerance(size, n_ins):
+                # the known ordering defect with an effect below the resolution of the photon-statistics reference (weakly
+                # squeezed states): the library's value is the documented formula with the [c0, c0, c1, c1] ordering, the
+                # other path equals the same formula with the [c0, c1, c0, c1] ordering, to rounding
+                ctx.viol("phaseshifter-expectation-concrete-branch-order", head + "%s gives %s = the formula with the tile ordering %s; "
+                         "the concrete path equals the formula with the repeat ordering %s; program %s" % (m, v, v_tile, v_rep, prog),
+                         dict(case, failing_mode="numpy"))
             elif not np_wrong:
                 # both within the reference tolerance of the photon statistics but further apart than rounding: the
                 # reference cannot tell which one is off
